@@ -12,7 +12,7 @@ import hashlib
 
 import os as _os
 # generator v2 = C++ programs + reference cycles through several records (switched on per default once soaked)
-GEN2 = _os.environ.get("VERIF_CXX", "0") == "1"
+GEN2 = _os.environ.get("VERIF_CXX", "1") == "1"
 
 class Type(object):
     named = False
